@@ -980,6 +980,32 @@ where
     }
 }
 
+#[cfg(feature = "verif")]
+impl<T, S> HashSet<T, S> {
+    /// Snapshot of the resize state (verification hook).
+    #[doc(hidden)]
+    pub fn verif_state(&self) -> crate::verif::State {
+        self.map.verif_state()
+    }
+
+    /// Cached-iterator view vs actual contents of the old table (verification hook).
+    #[doc(hidden)]
+    pub fn verif_cursor(&self) -> Option<(alloc::vec::Vec<usize>, alloc::vec::Vec<usize>)> {
+        self.map.verif_cursor()
+    }
+
+    /// Where `value` currently lives (verification hook).
+    #[doc(hidden)]
+    pub fn verif_locate<Q: ?Sized>(&self, value: &Q) -> crate::verif::Location
+    where
+        T: Borrow<Q>,
+        Q: Hash + Eq,
+        S: BuildHasher,
+    {
+        self.map.verif_locate(value)
+    }
+}
+
 impl<T, S> PartialEq for HashSet<T, S>
 where
     T: Eq + Hash,
